@@ -530,7 +530,7 @@ func contract_MessageInfo_unmarshalPointerLazy(mi *MessageInfo, b []byte, p poin
 // @ site wtyp := protowire.Type(tag & 7): protowire.MinValidNumber <= num && num <= protowire.MaxValidNumber && uint64(num) == tag>>3
 // @ callsite f.funcs.unmarshal: num == f.num && arg[protowire.Type](2) == protowire.Type(tag&7) && identical(arg[[]byte](0), b) && arg[*coderFieldInfo](3) == f && arg[pointer](1) == p
 func contract_MessageInfo_unmarshalField(mi *MessageInfo, b []byte, p pointer, f *coderFieldInfo, lazyInfo *protolazy.XXX_lazyUnmarshalInfo, flags protoiface.UnmarshalInputFlags) (err error) {
-	requires(f != nil)
+	domain(f != nil) // both callers look f up in the coder tables first (lazyUnmarshal's call-site clause states it)
 	modifiesAll()
 	return
 }
